@@ -148,6 +148,35 @@ pub fn run(tier: &str, seed: u64, out: &Path) -> i32 {
             push(&mut jobs, &mut names, "option", &p.name, p.src.clone(), cfg);
         }
     }
+    // F. hostile text in comments and strings with the text-rewriting options on, narrow and wide pages
+    for k in 0..(if thorough { 8000 } else { 1200 }) {
+        let src = text_program(&mut rng);
+        let mut cfg: Vec<(String, String)> = vec![("max_width".to_string(), rng.pick(&[20usize, 30, 40, 60, 80, 100]).to_string())];
+        for (key, val) in [("wrap_comments", "true"), ("format_strings", "true"), ("normalize_comments", "true"), ("format_code_in_doc_comments", "true"), ("normalize_doc_attributes", "true"), ("error_on_line_overflow", "true"), ("error_on_unformatted", "true"), ("hard_tabs", "true")] {
+            if rng.chance(1, 2) {
+                cfg.push((key.to_string(), val.to_string()));
+            }
+        }
+        if rng.chance(1, 3) {
+            cfg.push(("comment_width".into(), rng.pick(&[10usize, 20, 40, 80]).to_string()));
+        }
+        push(&mut jobs, &mut names, "text", &format!("text{}", k), src, cfg);
+    }
+    // G. numeric literals in every spelling with the literal-rewriting options
+    for k in 0..(if thorough { 3000 } else { 500 }) {
+        let src = literal_program(&mut rng);
+        let mut cfg: Vec<(String, String)> = vec![];
+        if rng.chance(2, 3) {
+            cfg.push(("float_literal_trailing_zero".into(), rng.pick(&["Always", "IfNoPostfix", "Never"]).to_string()));
+        }
+        if rng.chance(2, 3) {
+            cfg.push(("hex_literal_case".into(), rng.pick(&["Upper", "Lower"]).to_string()));
+        }
+        if rng.chance(1, 4) {
+            cfg.push(("max_width".into(), "20".into()));
+        }
+        push(&mut jobs, &mut names, "literal", &format!("lit{}", k), src, cfg);
+    }
     let timeout = Duration::from_secs(if thorough { 20 } else { 8 });
     let res = pool::run_jobs(&jobs, jobs_n(), timeout);
     let mut distinct = std::collections::HashSet::new();
@@ -172,6 +201,9 @@ pub fn run(tier: &str, seed: u64, out: &Path) -> i32 {
             idx.swap(i, j);
         }
         idx.truncate(n_cli.min(jobs.len()));
+        // the report renderer only runs in the binary: add cases that ask for diagnostics
+        let diag: Vec<usize> = (0..jobs.len()).filter(|&i| names[i].starts_with("text:") && cfg_get(&jobs[i].cfg, "error_on_line_overflow") == Some("true")).take(if thorough { 1500 } else { 200 }).collect();
+        idx.extend(diag);
         let cli: Vec<(usize, CliOut)> = par_map(&idx, |&i| {
             let mut cmd = Command::new(&bin);
             cmd.current_dir("/verif/frozen").arg("--config-path").arg("/verif/frozen/empty.toml").arg("--emit").arg("stdout");
@@ -191,10 +223,30 @@ pub fn run(tier: &str, seed: u64, out: &Path) -> i32 {
                     o.count("cli:ABNORMAL");
                     let first = c.stderr.lines().find(|l| l.contains("panicked") || l.starts_with("error")).unwrap_or("").to_string();
                     let site = if first.contains("panicked at ") { site_fn(first.split("panicked at ").nth(1).unwrap_or("").trim_end_matches(':')) } else { "fatal-error-unwind".to_string() };
+                    // message class: the line after "panicked at", digits and quoted text removed
+                    let msg = c.stderr.lines().skip_while(|l| !l.contains("panicked at ")).nth(1).unwrap_or("").to_string();
+                    let mut class = String::new();
+                    let mut in_tick = false;
+                    for ch in msg.chars() {
+                        if ch == '`' { in_tick = !in_tick; continue; }
+                        if in_tick { continue; }
+                        if ch.is_ascii_digit() { if !class.ends_with('N') { class.push('N'); } } else { class.push(ch); }
+                    }
+                    let class: String = class.split(';').next().unwrap_or("").trim().chars().take(60).collect();
+                    let site = format!("{}:{}", site, class.replace(' ', "_"));
                     o.direct_failures.push(json!({"sig": format!("c16:cli-exit:{:?}:{}", other, site), "what": format!("the rustfmt binary ended with status {:?}: {}", other, first), "case": names[i], "config": cfg_text(&jobs[i].cfg), "src": jobs[i].src}));
                 }
             }
             o.direct_evals += 1;
+        }
+        // enumerated probe F27: annotate-snippets (outside /repo) cuts a long reported line inside a
+        // multi-byte character
+        if let Ok(src) = std::fs::read_to_string("/verif/corpus/c16_f27.rs") {
+            let mut cmd = Command::new(&bin);
+            cmd.current_dir("/verif/frozen").arg("--config-path").arg("/verif/frozen/empty.toml").arg("--emit").arg("stdout").arg("--config").arg("max_width=80,wrap_comments=true,format_strings=true,normalize_comments=true,error_on_line_overflow=true,error_on_unformatted=true,hard_tabs=true,comment_width=20");
+            let c = run_cmd(&mut cmd, src.as_bytes(), timeout);
+            let bad = !c.timed_out && !matches!(c.code, Some(0) | Some(1));
+            o.probes.push(json!({"id": "F27", "fails": bad, "what": format!("rustfmt on corpus/c16_f27.rs with diagnostics on: exit status {:?}; {}", c.code, c.stderr.lines().find(|l| l.contains("char boundary")).unwrap_or(""))}));
         }
     } else {
         o.notes.push(format!("binary {} not found: CLI stage skipped", bin));
